@@ -760,7 +760,7 @@ func runGen(cfg Config, args []string, prop string) int {
 	// systematically: every misfit kind x {0,1,2 additional arguments}, repeated
 	nMisfit := 0
 	if prop == "C10" {
-		nMisfit = cfg.N(51, 510)
+		nMisfit = cfg.N(60, 600)
 	}
 	b := &Batch[GenCase]{Property: prop, Level: level, Cfg: cfg, Env: env, N: n + nMisfit,
 		Gen: func(i int) GenCase {
